@@ -384,7 +384,7 @@ func main() {
 		"Cases: A = (algorithm × content × chunking) on a fresh hasher, contents of length {0,1,…,15..17,31..33,55..57,63..65,111..129,…,32767..32769,65535..65537,2^20-1,2^20} (PRNG bytes, 0x00/0xff/'a' runs), log-uniform PRNG lengths and every published vector input, " +
 		"15 chunkings (1,7,511,512,513,32767,32768,32769, fill, cycle, random with sparse (0,nil) reads, data+EOF, zero-sprinkled, bytes.Reader, strings.Reader); non-trivial iff the instrumented reader delivered the content in ≥ 2 data-carrying reads. " +
 		"M/E/S = histories on ONE hasher object: steps ok / fail@k (reader error after exactly k bytes, with or without data in the failing Read, custom error or io.ErrUnexpectedEOF) / cancel@k (context cancelled once k bytes were delivered, or before the call); " +
-		"E enumerates every sequence of length 1..3 over the alphabet {ok, fail@class, cancel@class} (offset classes 0,1,B-1,B,B+1,mid,L-1,L and, for cancel, "before the call"; B = block size, L = length), each followed by an ok probe; the thorough tier runs each such history in 8 variants of the unconstrained details (contents, chunkings, entry points), S samples lengths 1..6 with arbitrary k; constructors NewHashingAlgorithm(name) and NewBespokeHashingAlgorithm(observed standard hash); " +
+		"E enumerates every sequence of length 1..3 over the alphabet {ok, fail@class, cancel@class} (offset classes 0,1,B-1,B,B+1,mid,L-1,L and, for cancel, before-the-call; B = block size, L = length), each followed by an ok probe; the thorough tier runs each such history in 8 variants of the unconstrained details (contents, chunkings, entry points), S samples lengths 1..6 with arbitrary k; constructors NewHashingAlgorithm(name) and NewBespokeHashingAlgorithm(observed standard hash); " +
 		"non-trivial iff a judged digest was preceded on the same object by a calculation that returned an error after the reader had delivered ≥ 1 byte. " +
 		"F = (backend × algorithm × file content) through FS.FileHash*, IFileHash.Calculate*/CalculateFile*, fresh and after pre-cancelled / not-a-file / file read error@k / cancel@k / backend File.Read fault (fsmon) on the same IFileHash; non-trivial iff a judged file was non-empty. " +
 		"distinct = canonical string of the whole case (algorithm, constructor, every step with content spec, chunking, k, entry point).")
@@ -400,6 +400,7 @@ func main() {
 	})
 	defer wd.Stop()
 
+	t0 := time.Now() // progress lines only; never decides anything
 	m.scratch = vrun.Scratch("c20")
 	defer os.RemoveAll(m.scratch)
 
@@ -440,6 +441,7 @@ func main() {
 		j := i / len(algos)
 		m.doHist(m.exhaustiveCase(a, al, seqs[j%len(seqs)], j))
 	})
+	fmt.Printf("info: part E done at %.1fs\n", time.Since(t0).Seconds())
 	r.Obs("cases_E_exhaustive_histories", int64(len(seqs)*len(algos)*variants))
 	r.Obs("alphabet_size", int64(len(al)))
 
@@ -450,6 +452,7 @@ func main() {
 		m.histShape.add(fmt.Sprintf("len%d", len(hc.Steps)-1))
 		m.doHist(hc)
 	})
+	fmt.Printf("info: part S done at %.1fs\n", time.Since(t0).Seconds())
 	r.Obs("cases_S_sampled_histories", int64(ns*len(algos)))
 
 	// A: one-shot × chunking
@@ -465,6 +468,7 @@ func main() {
 		}
 		m.doHist(histCase{Part: "A", Algo: a.Name, Ctor: "named", Steps: []step{{Outcome: "ok", API: api, Content: c, Chunk: style, ChunkSeed: i}}})
 	})
+	fmt.Printf("info: part A done at %.1fs\n", time.Since(t0).Seconds())
 	r.Obs("cases_A_oneshot_chunkings", int64(nA))
 	r.Obs("contents_A", int64(len(cs)))
 
@@ -479,6 +483,7 @@ func main() {
 			r.Sample(fcs[i])
 		}
 	})
+	fmt.Printf("info: part F done at %.1fs\n", time.Since(t0).Seconds())
 	r.Obs("cases_F_files", int64(len(fcs)))
 	_ = os.RemoveAll(m.scratch)
 
